@@ -81,7 +81,7 @@ PROPS = {
     },
     "C04": {
         "theorems": ["newWithFS_wiring", "base_view_never_names_loc", "backup_view_confined_to_loc", "loc_is_hidden"],
-        "streams": [{"name": "hist", "quick": ["-n", "400"], "thorough": ["-n", "24000"]}, {"name": "layers", "quick": ["-n", "10000"]}],
+        "streams": [{"name": "hist", "quick": ["-n", "400"], "thorough": ["-n", "24000"]}, {"name": "layers", "quick": ["-n", "10000"]}, {"name": "listing"}],
         "assumptions": HIST_ASSUME + LAYER_ASSUME,
     },
     "C07": {
